@@ -58,6 +58,8 @@ def run(chk, repo):
     chk.doc("R15.4", "the mailbox counter survives a failed exchange "
                      "(shared with C15)")
     c15.section(chk, repo)
+    chk.doc("R15.3", "the mailbox counter cycle (shared with C15)")
+    c15.counter(chk, repo)
     chk.doc("R15.1", "an exchange holds the mailbox lock from its request "
                      "to its last response (shared with C15)")
     chk.doc("R15.2", "see R15.1")
